@@ -133,8 +133,8 @@ FLIPS = [("s", 0, 0), ("s", 0, 1), ("s", 1, 0), ("s", 1, 1), ("bs", 2, 0), ("bs"
          ("s", 5, 0), ("s", 5, 1), ("s", 0, 2), ("bs", 4, 0), ("s", 1, 3), ("s", 0, 1), ("bs", 4, 1), ("s", 1, 1)]
 
 
-def feature(kind, g, **kw):
-    """a node of the kind with a well-formed, readable and writable value source among g's nodes 6.."""
+def feature(kind, g, tb=6, **kw):
+    """a node of the kind with a well-formed, readable and writable value source among g's nodes tb, tb+1"""
     if kind in ("Integer", "Float"):
         kw.setdefault("value", ("slot", 3))
     elif kind == "Boolean":
@@ -144,11 +144,48 @@ def feature(kind, g, **kw):
     elif kind == "String":
         kw.setdefault("value", ("slot", 0))
     elif kind in ("IntConverter", "Converter"):
-        kw.setdefault("pvalue", 6)
-        kw.setdefault("vars", [7])
+        kw.setdefault("pvalue", tb)
+        kw.setdefault("vars", [tb + 1])
     elif kind in ("IntSwissKnife", "SwissKnife"):
-        kw.setdefault("vars", [6, 7])
+        kw.setdefault("vars", [tb, tb + 1])
     return A.node(kind, **kw)
+
+
+def gen_minimal(ck, rng, cases):
+    """small graphs first, so that a broken restriction is reported on a graph of 2..4 nodes"""
+    kinds = [k for k in A.ALL_KINDS if k != "Register"]
+    # the two repaired defects
+    add(cases, [A.node("IntReg", access="WO"), A.node("SwissKnife", vars=[0])], [("nop",)], "minimal graphs")
+    add(cases, [A.node("Enumeration", value=("slot", 0)), A.node("Integer", value=("pvalue", 0, []))], [("nop",)],
+        "minimal graphs")
+    for kind in kinds:
+        for im in MODES:
+            for am in (MODES if kind in A.REG_KINDS else (None,)):
+                g = [A.node("IntReg", access="RW", init=5), A.node("Integer", value=("slot", 7))]
+                g.append(feature(kind, g, tb=0, imposed=im, access=am))
+                add(cases, g, [("nop",)], "minimal graphs")
+        for ref in ("impl", "avail", "lock"):
+            for ctl in (A.node("Integer", value=("slot", 1)), A.node("IntReg", access="RW", init=1),
+                        A.node("Boolean", value=("slot", 1))):
+                g = [A.node("IntReg", access="RW", init=5), A.node("Integer", value=("slot", 7)), ctl]
+                g.append(feature(kind, g, tb=0, access="RW", **{ref: 2}))
+                ops = [("bs", 2, 0), ("bs", 2, 1)] if ctl["kind"] == "Boolean" else [("s", 2, 0), ("s", 2, 1), ("s", 2, 2)]
+                add(cases, g, ops, "minimal graphs")
+    # one unreadable / unwritable source under each referrer
+    for src in (A.node("IntReg", access="WO"), A.node("IntReg", access="RO"), A.node("Integer", value=("slot", 1), imposed="RO"),
+                A.node("Integer", value=("slot", 1), imposed="WO"), A.node("Enumeration", value=("slot", 0)),
+                A.node("Float", value=("slot", 1)), A.node("Boolean", value=("slot", 1)), A.node("StringReg", access="RW"),
+                A.node("StringReg", access="RO")):
+        ok = A.node("IntReg", access="RW", init=0)
+        for ref in (A.node("Integer", value=("pvalue", 0, [])), A.node("Integer", value=("pvalue", 1, [0])),
+                    A.node("Float", value=("pvalue", 0, [1])),
+                    A.node("Integer", value=("pindex", 1, [(0, ("node", 0))], ("slot", 3))),
+                    A.node("Integer", value=("pindex", 1, [(1, ("slot", 3))], ("node", 0))),
+                    A.node("Boolean", value=("node", 0)), A.node("Command", value=("node", 0)),
+                    A.node("Enumeration", value=("node", 0)), A.node("String", value=("node", 0)),
+                    A.node("IntConverter", pvalue=0, vars=[]), A.node("Converter", pvalue=1, vars=[0]),
+                    A.node("IntSwissKnife", vars=[0]), A.node("SwissKnife", vars=[1, 0])):
+            add(cases, [dict(src), dict(ok), ref], [("s", 1, 1), ("s", 1, 0)], "minimal graphs")
 
 
 def gen_combos(ck, rng, cases):
@@ -356,6 +393,7 @@ def gen_cached(ck, rng, cases, src):
 def gen_cases(ck):
     rng = Rng(ck.seed)
     cases = []
+    gen_minimal(ck, rng, cases)
     gen_combos(ck, rng, cases)
     gen_sources(ck, rng, cases)
     mal = gen_random(ck, rng, cases, 2500 if ck.tier == "quick" else 20000)
